@@ -230,8 +230,38 @@ class ApiGen(object):
         elif name == "FileSelected":
             self.regs = []
 
+    def job_traffic(self):
+        """G-code / @-commands of the running job between two requests."""
+        r = self.r
+        for _ in range(r.randrange(1, 4)):
+            if r.random() < 0.25:
+                self.emit(op="at", cmd="ExcludeRegion", params=r.choice(["disable", "enable", "off", "on", "x"]))
+            else:
+                if self.regs and r.random() < 0.6:
+                    reg = r.choice(self.regs)
+                    if reg["type"] == "RectangularRegion":
+                        x, y = (reg["x1"] + reg["x2"]) / 2.0, (reg["y1"] + reg["y2"]) / 2.0
+                    else:
+                        x, y = reg["cx"], reg["cy"]
+                    t = "G1 X%.3f Y%.3f" % (x, y)
+                else:
+                    t = r.choice(["G28", "G1 X%.1f Y%.1f" % (r.uniform(0, 200), r.uniform(0, 200)), "G1 Z0.3",
+                                  "G1 E-1 F1800", "G1 E1", "M117 x", "G91", "G90"])
+                self.emit(op="gcode", text=t)
+
     def settings(self):
         r = self.r
+        if r.random() < 0.2:
+            # a settings update that carries an entry the plugin cannot digest (a pattern that is not a regular
+            # expression) together with new values for the two flags
+            st = {"atCommandActions": [{"command": "ExcludeRegion", "parameterPattern": "(unclosed",
+                                        "action": "disable_exclusion", "description": "bad"}]}
+            self.may_shrink = r.random() < 0.5
+            st["mayShrinkRegionsWhilePrinting"] = self.may_shrink
+            self.clear_after = r.random() < 0.5
+            st["clearRegionsAfterPrintFinishes"] = self.clear_after
+            self.emit(op="settings", set=st, invalid=True)
+            return
         st = {}
         if r.random() < 0.6:
             self.may_shrink = r.random() < 0.5
@@ -250,7 +280,8 @@ def gen_api(rng, prop):
         for _ in range(rng.randrange(1, 4)):
             g.req("add")
         g.event("PrintStarted")
-        w = [("req", 85), ("event", 4), ("settings", 4), ("get", 2), ("restart", 5)]
+        g.emit(op="gcode", text="G28")
+        w = [("req", 80), ("event", 4), ("settings", 4), ("get", 2), ("restart", 5), ("job", 6)]
     else:
         if rng.random() < 0.3:
             cfg["settings"]["clearRegionsAfterPrintFinishes"] = True
@@ -258,7 +289,7 @@ def gen_api(rng, prop):
         if rng.random() < 0.3:
             cfg["settings"]["mayShrinkRegionsWhilePrinting"] = True
             g.may_shrink = True
-        w = [("req", 70), ("event", 15), ("settings", 5), ("get", 10)]
+        w = [("req", 66), ("event", 15), ("settings", 5), ("get", 8), ("job", 6)]
     kinds = [k for k, _ in w]
     weights = [x for _, x in w]
     for _ in range(n):
@@ -271,6 +302,8 @@ def gen_api(rng, prop):
             g.settings()
         elif k == "get":
             g.emit(op="api_get")
+        elif k == "job":
+            g.job_traffic()
         elif k == "restart":
             g.event(rng.choice(END))
             if rng.random() < 0.5:
